@@ -23,12 +23,14 @@ class Unit:
     min_obligations: int = 1
     max_paths: int = core.MAX_PATHS
     kind: str = "symbolic"
+    prove_timeout_ms: int = core.PROVE_TIMEOUT_MS
 
 
 UNITS: dict[str, Unit] = {}
 
 
-def unit(name, props, functions=(), assumptions=(), inlined=(), post=None, min_obligations=1, max_paths=core.MAX_PATHS, kind="symbolic"):
+def unit(name, props, functions=(), assumptions=(), inlined=(), post=None, min_obligations=1, max_paths=core.MAX_PATHS, kind="symbolic",
+         prove_timeout_ms=core.PROVE_TIMEOUT_MS):
     def deco(f):
         UNITS[name] = Unit(
             name=name,
@@ -42,6 +44,7 @@ def unit(name, props, functions=(), assumptions=(), inlined=(), post=None, min_o
             min_obligations=min_obligations,
             max_paths=max_paths,
             kind=kind,
+            prove_timeout_ms=prove_timeout_ms,
         )
         return f
 
@@ -144,7 +147,7 @@ def run_unit(name, keep_smt2=2):
     kept = 0
     for ob in obs:
         want = kept < keep_smt2 and not isinstance(ob.goal, bool)
-        core.discharge(ob, keep_smt2=want)
+        core.discharge(ob, timeout_ms=u.prove_timeout_ms, keep_smt2=want)
         if want and ob.smt2:
             kept += 1
         res.solver_s += ob.time_s
